@@ -16,18 +16,24 @@ import base64, itertools, os, re, time
 from .. import common as C
 
 MANIFEST = dict(
-    text="Lean 4 theorems over an executable model of keyvalue.c template substitution / first-match rule "
-         "selection, burl_append (percent-encoders, base64url, case mapping), the mod_rewrite once/repeat loop "
-         "with its loop limit, mod_redirect, mod_alias_remap and the simple-vhost / evhost docroot composition; "
-         "modifier->flag map and base64url tables regenerated from the C on every run; model tied to the C by "
-         "differential runs against the real functions with real PCRE2 (trace-validated captures) under "
-         "ASan/UBSan, plus an independent Python interpreter of the documented rule semantics as oracle",
+    text="Lean 4 theorems over an executable model of keyvalue.c (first-match rule selection; template substitution "
+         "proved equal to a token-level reference interpreter for every well-formed template: $N/%N captures, "
+         "${url.*}, ${qsa}, every sequence of documented modifiers), burl_append (percent-encoders, base64url "
+         "round trip, case mapping), the mod_rewrite once/repeat loop (bounded for every rule list and matcher), "
+         "mod_redirect, mod_alias_remap (exact prefix replacement) and the simple-vhost / evhost docroot "
+         "composition; the modifier->flag map and base64url tables are regenerated from the C on every run; the "
+         "model is tied to the C by differential runs against the real functions with real PCRE2 (trace-validated "
+         "captures) under ASan/UBSan, an independent Python interpreter of the documented rule semantics is the "
+         "oracle, and an end-to-end stream drives the real lighttpd (rewrite/redirect/alias/vhost configs) and "
+         "compares Location / resource served with that interpreter",
     note="trusted: Lean kernel, hand-written model validated by the h_keyvalue correspondence, PCRE2 matching "
-         "(external; its results are inputs of the model, re-verified by the harness), the COMEBACK dispatcher "
-         "is emulated by the harness (parse target + re-call of mod_rewrite_uri_handler), filesystem checks of "
-         "the vhost modules (stat) are outside the model",
-    tech="Lean 4 proof over hand-written model + differential correspondence (in-process C harness) + "
-         "reference-interpreter oracle",
+         "(external; its results are inputs of the model, re-verified by the harness on every case; cross-checked "
+         "with Python re on the generated regex subset), in-process the COMEBACK dispatcher is emulated by the "
+         "harness (the real one is exercised by the end-to-end stream), filesystem checks of the vhost modules "
+         "(stat) are outside the model; the theorem about the modifier map and the toupper example do not check "
+         "while keyvalue.c maps \"upper:\" to BURL_TOLOWER",
+    tech="Lean 4 proof over hand-written model + differential correspondence (in-process C harness, real PCRE2) + "
+         "reference-interpreter oracle + end-to-end stream against the real server",
     ref="6/C20")
 
 hx, unhx = C.hx, C.unhx
@@ -1184,7 +1190,7 @@ def e2e_fetch(port, reqs):
     for i, (host, target) in enumerate(reqs):
         wire += b"GET " + target + b" HTTP/1.1\r\nHost: " + host + b"\r\n" + \
                 (b"Connection: close\r\n" if i == len(reqs) - 1 else b"") + b"\r\n"
-    data, closed = e2e.h1_exchange(port, [wire], read_timeout=5.0)
+    data, closed = e2e.h1_exchange(port, [wire], read_timeout=15.0)
     try:
         rs = e2e.parse_responses(data, closed=closed)
     except e2e.RespParseError:
@@ -1278,76 +1284,103 @@ def run_e2e(ctx):
             files[p.encode()] = marker
         return files
 
-    def drive(name, srv, conf, reqs, expect):
-        try:
-            with srv:
+    def drive(name, mk, conf, reqs, expect):
+        """mk() -> a fresh Server (+ its files); a server that does not come up is retried twice on a
+        new port before it counts as a failure"""
+        last = None
+        for attempt in range(3):
+            srv = mk()
+            try:
+                srv.start()
+            except (OSError, RuntimeError) as ex:
+                last = ex
+                srv.stop()
+                continue
+            try:
                 for i in range(0, len(reqs), 25):
-                    chunk = reqs[i:i + 25]
-                    e2e_compare(ctx, name, conf, srv.port, chunk, expect)
+                    e2e_compare(ctx, name, conf, srv.port, reqs[i:i + 25], lambda h, t: expect(srv, h, t))
                     if not srv.alive():
                         break
                 alive = srv.alive()
+            except OSError as ex:
+                alive = srv.alive()
+                if alive:
+                    last = ex
+                    srv.stop()
+                    continue
+            srv.stop()
             rep = srv.sanitizer_report()
             if rep or not alive:
                 ctx.violation("e2e:%s:sanitizer" % name, "server crashed / sanitizer report during the end-to-end "
                               "stream (%s)" % name, {"property": ctx.pid, "kind": "e2e-sanitizer", "stream": name,
                                                       "config": conf, "report": (rep or srv.logs())[-3000:]})
-        except (OSError, RuntimeError) as ex:
-            ctx.broken.append({"kind": "e2e-run", "names": [name], "log": str(ex)[-2000:]})
+            return
+        ctx.broken.append({"kind": "e2e-run", "names": [name], "log": str(last)[-2000:]})
 
     # A: rewrite / redirect / alias
-    conf = e2e_conf_a()
-    srv = e2e.Server(bd, conf, modules=("mod_rewrite", "mod_redirect", "mod_alias"))
-    files = mkfiles(srv.docroot, E2E_FILES)
-    files.update(mkfiles(srv.root, E2E_ALIASED))
-    drive("rules", srv, conf, e2e_requests(rng, nreq),
-          lambda h, t: e2e_expect_a(srv.root, srv.docroot, srv.port, h, t, files))
+    conf_a = e2e_conf_a()
+
+    def mk_a():
+        srv = e2e.Server(bd, conf_a, modules=("mod_rewrite", "mod_redirect", "mod_alias"))
+        srv.files = mkfiles(srv.docroot, E2E_FILES)
+        srv.files.update(mkfiles(srv.root, E2E_ALIASED))
+        return srv
+
+    drive("rules", mk_a, conf_a, e2e_requests(rng, nreq),
+          lambda srv, h, t: e2e_expect_a(srv.root, srv.docroot, srv.port, h, t, srv.files))
 
     # B: simple-vhost
-    conf = ('simple-vhost.server-root = "@ROOT@/vhosts/"\nsimple-vhost.default-host = "default.example"\n'
-            'simple-vhost.document-root = "/htdocs/"\n')
-    srvb = e2e.Server(bd, conf, modules=("mod_simple_vhost",))
+    conf_b = ('simple-vhost.server-root = "@ROOT@/vhosts/"\nsimple-vhost.default-host = "default.example"\n'
+              'simple-vhost.document-root = "/htdocs/"\n')
     vh = [b"default.example", b"a.example", b"b.a.example", b"xn--e1afmkfd.example"]
-    filesb = mkfiles(srvb.root, ["vhosts/%s/htdocs/index.txt" % h.decode() for h in vh] + ["docroot/index.txt"])
 
-    def expect_b(host, target):
+    def mk_b():
+        srv = e2e.Server(bd, conf_b, modules=("mod_simple_vhost",))
+        srv.files = mkfiles(srv.root, ["vhosts/%s/htdocs/index.txt" % h.decode() for h in vh] + ["docroot/index.txt"])
+        return srv
+
+    def expect_b(srv, host, target):
         v = valid_host(host)
         if v is None:
             raise Abstain
         name = v[0].lower()
         for cand in (name, b"default.example"):
-            root = unhx(hx(ref_svhost((srvb.root + "/vhosts/").encode(), cand, b"/htdocs/")))
+            root = ref_svhost((srv.root + "/vhosts/").encode(), cand, b"/htdocs/")
             if os.path.isdir(root.decode()):
                 p = root + b"index.txt"
-                return ("file", filesb[p]) if p in filesb else ("status", 404)
+                return ("file", srv.files[p]) if p in srv.files else ("status", 404)
         raise Abstain
 
     hosts_b = vh + [b"A.Example", b"a.example:8080", b"unknown.example", b"b.a.example:1", b"a.example.", b"example",
                     b"default.example:80", b"B.A.EXAMPLE"]
-    drive("simple-vhost", srvb, conf, [(rng.choice(hosts_b), b"/index.txt") for _ in range(max(60, nreq // 8))], expect_b)
+    drive("simple-vhost", mk_b, conf_b, [(rng.choice(hosts_b), b"/index.txt") for _ in range(max(60, nreq // 8))],
+          expect_b)
 
     # C: evhost
-    conf = 'evhost.path-pattern = "@ROOT@/ev/%0/%3/%{2.1}/"\n'
-    srvc = e2e.Server(bd, conf, modules=("mod_evhost",))
-    filesc = mkfiles(srvc.root, ["ev/domain.tld/sub1/d/index.txt", "ev/domain.tld/d/index.txt", "ev/other.org/www/o/index.txt",
-                                 "docroot/index.txt"])
+    conf_c = 'evhost.path-pattern = "@ROOT@/ev/%0/%3/%{2.1}/"\n'
 
-    def expect_c(host, target):
+    def mk_c():
+        srv = e2e.Server(bd, conf_c, modules=("mod_evhost",))
+        srv.files = mkfiles(srv.root, ["ev/domain.tld/sub1/d/index.txt", "ev/domain.tld/d/index.txt",
+                                       "ev/other.org/www/o/index.txt", "docroot/index.txt"])
+        return srv
+
+    def expect_c(srv, host, target):
         if valid_host(host) is None:
             raise Abstain
-        r = ref_evhost((srvc.root + "/ev/%0/%3/%{2.1}/").encode(), host.lower())
+        r = ref_evhost((srv.root + "/ev/%0/%3/%{2.1}/").encode(), host.lower())
         if r == "badpat":
             raise Abstain
         root = unhx(r)
         if not os.path.isdir(root.decode()):
-            root = (srvc.docroot + "/").encode()
+            root = (srv.docroot + "/").encode()
         # "//" inside the composed root names the same directory
         p = re.sub(rb"/+", b"/", root) + b"index.txt"
-        return ("file", filesc[p]) if p in filesc else ("status", 404)
+        return ("file", srv.files[p]) if p in srv.files else ("status", 404)
 
     hosts_c = [b"sub1.domain.tld", b"x.sub1.domain.tld", b"domain.tld", b"www.other.org:81", b"Sub1.Domain.TLD", b"tld",
                b"a.b.sub1.domain.tld:8080", b"nosuch.example", b"www.other.org", b"sub2.domain.tld"]
-    drive("evhost", srvc, conf, [(rng.choice(hosts_c), b"/index.txt") for _ in range(max(60, nreq // 8))], expect_c)
+    drive("evhost", mk_c, conf_c, [(rng.choice(hosts_c), b"/index.txt") for _ in range(max(60, nreq // 8))], expect_c)
     ctx.streams.append({"name": "end-to-end (real lighttpd: rewrite/redirect/alias, simple-vhost, evhost)",
                         "cases": nreq + 2 * max(60, nreq // 8), "wall_s": round(time.time() - t0, 2)})
 
